@@ -1168,7 +1168,7 @@ def sym_sqrt(x):
             return h
     # solver-backed: does the current path imply x == h^2 for a hint h sharing atoms with x?
     pr = _SQRT_PROVER[0]
-    if pr is not None:
+    if pr is not None and len(x.n) <= 60 and (not x.f or len(x.d) <= 60):
         xa = x.atoms()
         for h in [Sym(pvar(pi_atom().id))] + _SQRT_HINTS if any(ATOMS[i].kind == 'pi' for i in xa) else _SQRT_HINTS:
             if h.atoms() <= xa:
